@@ -760,23 +760,146 @@ Fixpoint ew_legal (st : esys * option nat) (ops : list mop) : bool :=
       match m with
       | MReg i => e_can_reg (fst st) i && match snd st with None => true | Some _ => false end
       | _ => true
-      end && ew_legal (fst (w_mop e_mop e_obs st m)) t
+      end && ew_legal (fst (w_mop WOnce e_mop e_obs st m)) t
   end.
 
 Definition e_start : esys := run_skip estep esys_init (map GNew [1; 1]).
+
+(* restart / re-registration modes: additionally at most one registrant at a time
+   whose registration has lapsed without it having been notified yet, and
+   (RegisterService) no new registrant is started while one is in that state *)
+Definition e_lapsed (s : esys) : bool :=
+  existsb (fun g => e_believes g && negb (e_lease_live (es_kv s) (g_lease g))) (es_rs s).
+
+Fixpoint er_legal (mode : wmode) (obsf : esys -> mres -> bool -> obs) (st : esys * option nat) (ops : list mop) : bool :=
+  match ops with
+  | [] => true
+  | m :: t =>
+      match m with
+      | MReg i => e_can_reg (fst st) i && match snd st with None => true | Some _ => false end
+                  && match mode with WService => negb (e_lapsed (fst st)) | _ => true end
+      | MLapse => negb (e_lapsed (fst st))
+      | _ => true
+      end && er_legal mode obsf (fst (w_mop mode e_mop obsf st m)) t
+  end.
 
 Lemma ok_sound_on_etcd_model_bounded :
   forallb (fun ops => negb (e_legal e_start ops) || ok_on_model BEtcd [1; 1] ops) (schedules 5) = true /\
   forallb (fun ops => negb (ew_legal (e_start, None) ops) || ok_on_model BEtcdW [1; 1] ops) (schedules 5) = true.
 Proof. split; vm_compute; reflexivity. Qed.
 
+Lemma ok_sound_on_etcd_loops_bounded :
+  forallb (fun ops => negb (er_legal WRun e_obs2 (e_start, None) ops) || ok_on_model BEtcdR [1; 1] ops) (schedules 5) = true /\
+  forallb (fun ops => negb (er_legal WService e_obs2 (e_start, None) ops) || ok_on_model BEtcdS [1; 1] ops) (schedules 5) = true.
+Proof. split; vm_compute; reflexivity. Qed.
+
 (* the sweep is not vacuous: many schedules are legal *)
 Lemma legal_schedules_counted :
   Nat.leb 1000 (length (filter (e_legal e_start) (schedules 5))) = true /\
-  Nat.leb 1000 (length (filter (ew_legal (e_start, None)) (schedules 5))) = true.
-Proof. split; vm_compute; reflexivity. Qed.
+  Nat.leb 1000 (length (filter (ew_legal (e_start, None)) (schedules 5))) = true /\
+  Nat.leb 1000 (length (filter (er_legal WRun e_obs2 (e_start, None)) (schedules 5))) = true /\
+  Nat.leb 1000 (length (filter (er_legal WService e_obs2 (e_start, None)) (schedules 5))) = true.
+Proof. repeat split; vm_compute; reflexivity. Qed.
 
 (* ... while on the redis model it does raise alarms (the witness is among them) *)
 Lemma ok_rejects_redis_witness :
   ok_on_model BRedis [300; 300] [MReg 0; MLapse; MReg 1; MTickAll; MStop 0] = false.
 Proof. vm_compute; reflexivity. Qed.
+
+(* ---- the client loops (withActiveLock, selfmon.run, RegisterService) ----
+   Whatever the loops do — retry, restart after a lapse, register again at once —
+   they only ever take steps of the registrant system, so every state they pass
+   through is reachable and the exclusivity / notification / owner-safety theorems
+   apply to it: across restarts and re-registrations at most one registrant
+   believes it holds the key with a live lease. *)
+Lemma try_step_reach : forall s l, reachable estep esys_init s -> reachable estep esys_init (try_step estep s l).
+Proof.
+  intros s l H. unfold try_step. destruct (estep s l) eqn:E; auto. eapply reachable_step; eauto.
+Qed.
+
+Lemma e_mop_reach : forall s m, reachable estep esys_init s -> reachable estep esys_init (fst (e_mop s m)).
+Proof.
+  intros s m H. destruct m; simpl.
+  - repeat apply try_step_reach; auto.
+  - destruct (e_owner_lease s); simpl; auto. apply try_step_reach; auto.
+  - generalize (seq 0 (length (es_rs s))). intros l. revert s H.
+    induction l as [|i t IH]; intros s H; simpl; auto. apply IH. repeat apply try_step_reach; auto.
+  - repeat apply try_step_reach; auto.
+Qed.
+
+Lemma retry_reach : forall s p, reachable estep esys_init s ->
+  reachable estep esys_init (fst (retry_pending e_mop s p)).
+Proof.
+  intros s p H. unfold retry_pending. destruct p as [j|]; [|exact H].
+  pose proof (e_mop_reach s (MReg j) H) as H'. destruct (e_mop s (MReg j)) as [s' o]. cbn [fst] in H'.
+  destruct (o_res o); exact H'.
+Qed.
+
+Lemma w_mid_reach : forall mode s1 p newly, reachable estep esys_init s1 ->
+  reachable estep esys_init (fst (w_mid mode e_mop s1 p newly)).
+Proof.
+  intros mode s1 p newly H1. unfold w_mid.
+  destruct mode; destruct newly as [j|]; try (apply retry_reach; exact H1).
+  - pose proof (retry_reach s1 p H1) as Hx. destruct (retry_pending e_mop s1 p) as [sb pb]. exact Hx.
+  - pose proof (e_mop_reach s1 (MReg j) H1) as Ha. destruct (e_mop s1 (MReg j)) as [sa o]. cbn [fst] in Ha.
+    destruct (o_res o); try (apply retry_reach; exact Ha); destruct p; try exact Ha; apply retry_reach; exact Ha.
+Qed.
+
+Lemma w_mop_reach : forall mode obsf st m,
+  reachable estep esys_init (fst st) ->
+  reachable estep esys_init (fst (fst (w_mop mode e_mop obsf st m))).
+Proof.
+  intros mode obsf [s p] m H. cbn [fst] in H. destruct m; unfold w_mop.
+  - pose proof (e_mop_reach s (MReg i) H) as H'. destruct (e_mop s (MReg i)) as [s' o]. cbn [fst] in H'.
+    destruct (o_res o); exact H'.
+  - pose proof (e_mop_reach s MLapse H) as H'. destruct (e_mop s MLapse) as [s' o]. exact H'.
+  - pose proof (e_mop_reach s MTickAll H) as H1. destruct (e_mop s MTickAll) as [s1 o1]. cbn [fst] in H1.
+    set (newly := newly_closed _ _ _).
+    pose proof (w_mid_reach mode s1 p newly H1) as H2.
+    destruct (w_mid mode e_mop s1 p newly) as [s2 p2]. cbn [fst] in H2.
+    pose proof (e_mop_reach s2 MTickAll H2) as H3. destruct (e_mop s2 MTickAll) as [s3 o3]. exact H3.
+  - destruct p as [j|].
+    + destruct (Nat.eqb i j); [exact H|].
+      pose proof (e_mop_reach s (MStop i) H) as H'. destruct (e_mop s (MStop i)) as [s' o]. exact H'.
+    + pose proof (e_mop_reach s (MStop i) H) as H'. destruct (e_mop s (MStop i)) as [s' o]. exact H'.
+Qed.
+
+(* state of the registrant system after a client-loop schedule *)
+Fixpoint w_state (mode : wmode) (obsf : esys -> mres -> bool -> obs) (st : esys * option nat) (ms : list mop)
+  : esys * option nat :=
+  match ms with
+  | [] => st
+  | m :: t => w_state mode obsf (fst (w_mop mode e_mop obsf st m)) t
+  end.
+
+Lemma w_state_reach : forall mode obsf ms st,
+  reachable estep esys_init (fst st) -> reachable estep esys_init (fst (w_state mode obsf st ms)).
+Proof.
+  induction ms as [|m t IH]; intros st H; simpl; auto. apply IH. apply w_mop_reach; auto.
+Qed.
+
+Lemma run_skip_reach : forall ls s, reachable estep esys_init s -> reachable estep esys_init (run_skip estep s ls).
+Proof.
+  induction ls as [|l t IH]; intros s H; simpl; auto.
+  destruct (estep s l) eqn:E; auto. apply IH. eapply reachable_step; eauto.
+Qed.
+
+Lemma e_init_reach : forall ttls, reachable estep esys_init (run_skip estep esys_init (map GNew ttls)).
+Proof. intros. apply run_skip_reach. apply reachable_refl. Qed.
+
+(* across restarts and re-registrations, in any of the three client loops, for any
+   number of registrants and any schedule of start / lapse / tick / stop: at most
+   one registrant believes it holds the key with a live lease, and the key carries
+   its lease *)
+Theorem etcd_loops_exclusive : forall mode obsf ttls ops s i j a b,
+  s = fst (w_state mode obsf (run_skip estep esys_init (map GNew ttls), None) ops) ->
+  nth_error (es_rs s) i = Some a -> nth_error (es_rs s) j = Some b ->
+  e_holds s a = true -> e_holds s b = true ->
+  i = j /\ e_owner_lease s = Some (g_lease a).
+Proof.
+  intros mode obsf ttls ops s i j a b -> Ha Hb Pa Pb.
+  assert (R : reachable estep esys_init
+                (fst (w_state mode obsf (run_skip estep esys_init (map GNew ttls), None) ops))).
+  { apply w_state_reach. simpl. apply e_init_reach. }
+  split; [eapply etcd_exclusive; eauto|eapply etcd_holder_owns_key; eauto].
+Qed.
